@@ -2306,4 +2306,320 @@ theorem arrive_owner_eval {n : Node} (hi : Inv n) (hrx : n.rx = none) {s : Sess}
   rw [getExchForRx_of_slot _ hu m.hdr i _ hsl hfor']
   rfl
 
+/-! ## the closer drains the dropped exchanges (a counting argument) -/
+
+theorem count_range_flip (f g : Nat → Bool) (i : Nat) : ∀ n, i < n → f i = false → g i = true →
+    (∀ j, j ≠ i → f j = g j) →
+    ((List.range n).filter f).length + 1 = ((List.range n).filter g).length := by
+  intro n
+  induction n with
+  | zero => intro h; omega
+  | succ n ih =>
+    intro hin hf hg hrest
+    rw [List.range_succ, List.filter_append, List.filter_append, List.length_append, List.length_append]
+    by_cases hi : i = n
+    · subst hi
+      have hsame : (List.range i).filter f = (List.range i).filter g := by
+        apply List.filter_congr
+        intro j hj
+        exact hrest j (by have := List.mem_range.1 hj; omega)
+      simp [hsame, hf, hg]
+    · have := ih (by omega) hf hg hrest
+      have hn : f n = g n := hrest n (fun h => hi h.symm)
+      simp only [List.filter_cons, List.filter_nil, hn]
+      split <;> simp <;> omega
+
+theorem count_range_same (f g : Nat → Bool) (n : Nat) (h : ∀ j, j < n → f j = g j) :
+    ((List.range n).filter f).length = ((List.range n).filter g).length := by
+  have : (List.range n).filter f = (List.range n).filter g :=
+    List.filter_congr (fun j hj => h j (List.mem_range.1 hj))
+  rw [this]
+
+/-- same slots (as far as "dropped" goes) ⇒ same count -/
+theorem droppedIn_congr {s y : Sess} (hl : y.exchs.length = s.exchs.length)
+    (h : ∀ j, slotDropped (y.slot j) = slotDropped (s.slot j)) : droppedIn y = droppedIn s := by
+  unfold droppedIn
+  rw [hl]
+  exact count_range_same _ _ _ (fun j _ => h j)
+
+/-- one dropped slot freed ⇒ one less -/
+theorem droppedIn_freed {s y : Sess} (hl : y.exchs.length = s.exchs.length) {i : Nat} {e : Exch}
+    (he : s.slot i = some e) (hd : e.role.isDropped = true) (hi : y.slot i = none)
+    (h : ∀ j, j ≠ i → y.slot j = s.slot j) : droppedIn y + 1 = droppedIn s := by
+  unfold droppedIn
+  rw [hl]
+  apply count_range_flip _ _ i _ (slot_lt s i e he)
+  · show slotDropped (y.slot i) = false
+    rw [hi]; rfl
+  · show slotDropped (s.slot i) = true
+    rw [he]; exact hd
+  · intro j hj
+    show slotDropped (y.slot j) = slotDropped (s.slot j)
+    rw [h j hj]
+
+theorem droppedIn_pos {s : Sess} {i : Nat} {e : Exch} (he : s.slot i = some e) (hd : e.role.isDropped = true) :
+    0 < droppedIn s := by
+  unfold droppedIn
+  apply List.length_pos_of_mem (a := i)
+  rw [List.mem_filter]
+  exact ⟨List.mem_range.2 (slot_lt s i e he), by show slotDropped (s.slot i) = true; rw [he]; exact hd⟩
+
+theorem sum_eq_zero_of_all (l : List Nat) (h : ∀ x ∈ l, x = 0) : l.sum = 0 := by
+  induction l with
+  | nil => rfl
+  | cons a as ih =>
+    simp only [List.sum_cons]
+    rw [h a (List.mem_cons_self ..), ih (fun x hx => h x (List.mem_cons_of_mem _ hx))]
+
+theorem le_sum_of_mem (l : List Nat) (a : Nat) (h : a ∈ l) : a ≤ l.sum := by
+  induction l with
+  | nil => cases h
+  | cons x xs ih =>
+    simp only [List.sum_cons]
+    rcases List.mem_cons.1 h with h1 | h1
+    · subst h1; omega
+    · have := ih h1; omega
+
+theorem droppedIn_zero_of (z : Sess) (h : ∀ j f, z.slot j = some f → f.role.isDropped = false) : droppedIn z = 0 := by
+  unfold droppedIn
+  rw [List.length_eq_zero_iff, List.filter_eq_nil_iff]
+  intro j _
+  show ¬ slotDropped (z.slot j) = true
+  cases hsl : z.slot j with
+  | none => simp [slotDropped]
+  | some f => simp [slotDropped, h j f hsl]
+
+theorem sum_map_set {α : Type} (f : α → Nat) : ∀ (l : List α) (i : Nat) (a y : α), l[i]? = some a →
+    ((l.set i y).map f).sum + f a = (l.map f).sum + f y := by
+  intro l
+  induction l with
+  | nil => intro i a y h; simp at h
+  | cons x xs ih =>
+    intro i a y h
+    cases i with
+    | zero =>
+      simp only [List.getElem?_cons_zero, Option.some.injEq] at h
+      subst h
+      simp only [List.set_cons_zero, List.map_cons, List.sum_cons]
+      omega
+    | succ i =>
+      rw [List.getElem?_cons_succ] at h
+      have := ih i a y h
+      simp only [List.set_cons_succ, List.map_cons, List.sum_cons]
+      omega
+
+theorem sum_map_eraseIdx {α : Type} (f : α → Nat) : ∀ (l : List α) (i : Nat) (a : α), l[i]? = some a →
+    ((l.eraseIdx i).map f).sum + f a = (l.map f).sum := by
+  intro l
+  induction l with
+  | nil => intro i a h; simp at h
+  | cons x xs ih =>
+    intro i a h
+    cases i with
+    | zero =>
+      simp only [List.getElem?_cons_zero, Option.some.injEq] at h
+      subst h
+      simp only [List.eraseIdx_cons_zero, List.map_cons, List.sum_cons]
+      omega
+    | succ i =>
+      rw [List.getElem?_cons_succ] at h
+      have := ih i a h
+      simp only [List.eraseIdx_cons_succ, List.map_cons, List.sum_cons]
+      omega
+
+/-- writing back an update `y` of the member `s` changes the count by the difference of the two -/
+theorem droppedCount_setSess {t : Table} (hn : UidNodup t) {s y : Sess} (hs : s ∈ t.sessions) (hu : y.uid = s.uid) :
+    droppedCount (t.setSess y) + droppedIn s = droppedCount t + droppedIn y := by
+  unfold droppedCount
+  rw [setSess_sessions]
+  obtain ⟨i, hf⟩ := find_isSome_of_mem t s hs
+  rw [← hu] at hf
+  rw [hf]
+  obtain ⟨s0, hs0, hu0⟩ := find_some_index t y.uid i hf
+  have : s0 = s := nodup_map_inj (fun (x : Sess) => x.uid) t.sessions hn s0 (List.mem_of_getElem? hs0) s hs (by rw [hu0, hu])
+  subst this
+  exact sum_map_set droppedIn t.sessions i s0 y hs0
+
+theorem droppedCount_remove {t : Table} (hn : UidNodup t) {s : Sess} (hs : s ∈ t.sessions) :
+    droppedCount (t.remove s.uid).1 + droppedIn s = droppedCount t := by
+  unfold droppedCount
+  rw [remove_sessions]
+  obtain ⟨i, hf⟩ := find_isSome_of_mem t s hs
+  rw [hf]
+  obtain ⟨s0, hs0, hu0⟩ := find_some_index t s.uid i hf
+  have : s0 = s := nodup_map_inj (fun (x : Sess) => x.uid) t.sessions hn s0 (List.mem_of_getElem? hs0) s hs hu0
+  subst this
+  have hi : i < t.sessions.length := (List.getElem?_eq_some_iff.1 hs0).1
+  simp only
+  rw [((swapRemove_perm t.sessions i hi).map droppedIn).sum_nat]
+  exact sum_map_eraseIdx droppedIn t.sessions i s0 hs0
+
+theorem droppedCount_touch {t : Table} (hn : UidNodup t) {s : Sess} (hs : s ∈ t.sessions) (now : Nat) :
+    droppedCount (t.setSess (touch s now)) = droppedCount t := by
+  have := droppedCount_setSess hn hs (y := touch s now) rfl
+  have h2 : droppedIn (touch s now) = droppedIn s := droppedIn_congr rfl (fun _ => rfl)
+  omega
+
+/-- **Every run of the closer that finds something reduces the number of dropped exchanges** -/
+theorem closer_decreases {t : Table} (ht : TInv t) (now : Nat) (hpos : 0 < droppedCount t) :
+    droppedCount (t.sweepDropped now).1 < droppedCount t := by
+  unfold Table.sweepDropped
+  cases h1 : findDropped true t.sessions with
+  | some p =>
+    obtain ⟨uid, i0⟩ := p
+    obtain ⟨s, hs, hu, e, he, hd, _⟩ := findDropped_some true _ _ _ h1
+    subst hu
+    simp only
+    rw [get_mem ht.uidN hs]
+    simp only
+    have e2 : (t.setSess (touch s now)).nextExchId =
+        ((t.setSess (touch s now)).nextExchId.1, (t.setSess (touch s now)).nextExchId.2) := rfl
+    rw [e2]
+    simp only
+    obtain ⟨ht1, hm1⟩ := get_tinv ht hs now
+    have ht2 := tinv_nextExchId ht1
+    have hsess : (t.setSess (touch s now)).nextExchId.1.sess s.uid = some (touch s now) :=
+      (sess_eq_some_iff _ ht2.uidN _ _).2 ⟨hm1, rfl⟩
+    rw [hsess]
+    simp only
+    have e3 : (t.setSess (touch s now)).nextExchId.1.remove s.uid =
+        (((t.setSess (touch s now)).nextExchId.1.remove s.uid).1, ((t.setSess (touch s now)).nextExchId.1.remove s.uid).2) := rfl
+    rw [e3]
+    simp only
+    have hrm := droppedCount_remove (t := (t.setSess (touch s now)).nextExchId.1) ht2.uidN (s := touch s now) hm1
+    have htc : droppedCount (t.setSess (touch s now)).nextExchId.1 = droppedCount t := droppedCount_touch ht.uidN hs now
+    have hp : 0 < droppedIn (touch s now) := droppedIn_pos (i := i0) (e := e) he hd
+    have hu : (touch s now).uid = s.uid := rfl
+    rw [hu] at hrm
+    omega
+  | none =>
+    simp only
+    cases h2 : findDropped false t.sessions with
+    | none =>
+      -- nothing dropped at all: contradiction with `hpos`
+      exfalso
+      have hz : droppedCount t = 0 := by
+        unfold droppedCount
+        apply sum_eq_zero_of_all
+        intro x hx
+        obtain ⟨z, hz, rfl⟩ := List.mem_map.1 hx
+        apply droppedIn_zero_of
+        intro j f hsl
+        cases hd : f.role.isDropped with
+        | false => rfl
+        | true =>
+          exfalso
+          cases hr : f.mrp.isRetransPending with
+          | true => exact findDropped_none true _ h1 z hz j f hsl ⟨hd, hr⟩
+          | false => exact findDropped_none false _ h2 z hz j f hsl ⟨hd, hr⟩
+      omega
+    | some p =>
+      obtain ⟨uid, i⟩ := p
+      obtain ⟨s, hs, hu, e, he, hd, _⟩ := findDropped_some false _ _ _ h2
+      subst hu
+      simp only
+      rw [get_mem ht.uidN hs]
+      simp only
+      have he1 : (touch s now).slot i = some e := he
+      rw [he1]
+      simp only
+      have hlt := slot_lt _ i e he1
+      obtain ⟨ht1, hm1⟩ := get_tinv ht hs now
+      have htc := droppedCount_touch ht.uidN hs now
+      have fin : ∀ (y : Sess), y.uid = s.uid → y.exchs.length = (touch s now).exchs.length → y.slot i = none →
+          (∀ j, j ≠ i → slotDropped (y.slot j) = slotDropped ((touch s now).slot j)) →
+          droppedCount ((t.setSess (touch s now)).setSess y) < droppedCount t := by
+        intro y hyu hyl hyi hyj
+        have h3 := droppedCount_setSess ht1.uidN hm1 (y := y) hyu
+        have h4 : droppedIn y + 1 = droppedIn (touch s now) := by
+          unfold droppedIn
+          rw [hyl]
+          apply count_range_flip _ _ i _ hlt
+          · show slotDropped (y.slot i) = false
+            rw [hyi]; rfl
+          · show slotDropped ((touch s now).slot i) = true
+            rw [he1]; exact hd
+          · intro j hj
+            exact hyj j hj
+        omega
+      split
+      · obtain ⟨m, k1, k2, k3⟩ := preSend_shape (touch s now) i e he1 false none none
+        have hres := fin { ((touch s now).preSend (some i) false none none).1 with
+            exchs := ((touch s now).preSend (some i) false none none).1.exchs.set i none }
+          k1.uid (by simp only [List.length_set]; exact k2) (by rw [slot_set]; simp [k2, hlt])
+          (fun j hj => by rw [slot_set]; simp only [Ne.symm hj, ↓reduceIte]; rw [k3 j]; simp [Ne.symm hj])
+        split <;> exact hres
+      · exact fin { touch s now with exchs := (touch s now).exchs.set i none } rfl (by simp)
+          (by rw [slot_set]; simp [hlt]) (fun j hj => by rw [slot_set]; simp [Ne.symm hj])
+
+theorem droppedCount_zero_iff (t : Table) : droppedCount t = 0 ↔ ∀ uid i, ¬ DroppedAt t uid i := by
+  constructor
+  · intro hz uid i ⟨s, hs, _, e, he, hd⟩
+    have hp := droppedIn_pos he hd
+    have : droppedIn s ≤ droppedCount t := by
+      unfold droppedCount
+      exact le_sum_of_mem _ _ (List.mem_map_of_mem hs)
+    omega
+  · intro h
+    unfold droppedCount
+    apply sum_eq_zero_of_all
+    intro x hx
+    obtain ⟨z, hz, rfl⟩ := List.mem_map.1 hx
+    apply droppedIn_zero_of
+    intro j f hsl
+    cases hd : f.role.isDropped with
+    | false => rfl
+    | true => exact absurd ⟨z, hz, rfl, f, hsl, hd⟩ (h z.uid j)
+
+/-- after as many runs of the closer as there are dropped exchanges, none is left -/
+theorem closer_drains : ∀ (k : Nat) (n : Node), Inv n → droppedCount n.t ≤ k →
+    droppedCount (closerRuns k n).t = 0 := by
+  intro k
+  induction k with
+  | zero => intro n _ h; simpa [closerRuns] using Nat.le_zero.1 h
+  | succ k ih =>
+    intro n hi h
+    simp only [closerRuns]
+    apply ih _ (inv_closer hi)
+    by_cases hz : droppedCount n.t = 0
+    · have : droppedCount (closer n).1.t ≤ droppedCount n.t := by
+        have hq := closer_effect hi.tinv n.now
+        have hno := (droppedCount_zero_iff n.t).1 hz
+        apply Nat.le_of_eq
+        rw [hz, droppedCount_zero_iff]
+        intro u j hdj
+        show False
+        cases ho : (n.t.sweepDropped n.now).2 with
+        | nothing =>
+          have : (n.t.sweepDropped n.now).1 = n.t := by
+            unfold Table.sweepDropped
+            have h1 : findDropped true n.t.sessions = none := by
+              cases hf : findDropped true n.t.sessions with
+              | none => rfl
+              | some p =>
+                obtain ⟨a, b⟩ := p
+                obtain ⟨s, hs, hu, e, he, hd, _⟩ := findDropped_some true _ _ _ hf
+                exact absurd ⟨s, hs, hu, e, he, hd⟩ (hno a b)
+            have h2 : findDropped false n.t.sessions = none := by
+              cases hf : findDropped false n.t.sessions with
+              | none => rfl
+              | some p =>
+                obtain ⟨a, b⟩ := p
+                obtain ⟨s, hs, hu, e, he, hd, _⟩ := findDropped_some false _ _ _ hf
+                exact absurd ⟨s, hs, hu, e, he, hd⟩ (hno a b)
+            simp [h1, h2]
+          have hdj' : DroppedAt (n.t.sweepDropped n.now).1 u j := hdj
+          rw [this] at hdj'
+          exact hno u j hdj'
+        | closedSession a b c =>
+          rw [ho] at hq
+          exact hno u j ((hq.2.2 u j hdj).1)
+        | closedExchange a b c d =>
+          rw [ho] at hq
+          exact hno u j (hq.2.2 u j hdj)
+      omega
+    · have := closer_decreases hi.tinv n.now (Nat.pos_of_ne_zero hz)
+      have h' : droppedCount (closer n).1.t < droppedCount n.t := this
+      omega
+
 end RxPath
